@@ -7,6 +7,7 @@ package verifsim
 // synctest bubble (fake clock).
 
 import (
+	sqlite3 "github.com/mattn/go-sqlite3"
 	"context"
 	"crypto/sha256"
 	"database/sql"
@@ -38,6 +39,7 @@ import (
 	"github.com/transparency-dev/witness/internal/persistence/inmemory"
 	psql "github.com/transparency-dev/witness/internal/persistence/sql"
 	"github.com/transparency-dev/witness/internal/witness"
+	"github.com/transparency-dev/witness/omniwitness"
 	"google.golang.org/grpc/codes"
 	"google.golang.org/grpc/status"
 )
@@ -314,6 +316,14 @@ func injected(kind string) error {
 		return context.DeadlineExceeded
 	case "abort":
 		return errors.New("verifsim: run aborted")
+	case "busy": // what SQLite reports when another connection holds a lock for longer than the busy timeout: "database is locked"
+		return sqlite3.Error{Code: sqlite3.ErrBusy}
+	case "locked":
+		return sqlite3.Error{Code: sqlite3.ErrLocked}
+	case "ioerr":
+		return sqlite3.Error{Code: sqlite3.ErrIoErr}
+	case "full":
+		return sqlite3.Error{Code: sqlite3.ErrFull}
 	}
 	return errors.New("injected storage failure (" + kind + ")")
 }
@@ -620,7 +630,12 @@ func (e *Engine) execOp(idx int, task string, invokeEvent int) {
 		rec.cancel = ucancel
 		e.mu.Unlock()
 		rec.TInvoke = time.Now()
-		rec.Out, rec.Err = e.wit.Update(uctx, req.LogID, req.Old, req.CP, req.Proof)
+		if e.plan.Cfg.Extra["via_adapter"] != 0 {
+			// through the adapter omniwitness.Main puts between the witness and its feeders / the bastion endpoint
+			rec.Out, rec.Err = omniwitness.VerifWitnessAdapter(e.wit).Update(uctx, req.LogID, req.Old, req.CP, req.Proof)
+		} else {
+			rec.Out, rec.Err = e.wit.Update(uctx, req.LogID, req.Old, req.CP, req.Proof)
+		}
 		rec.TReturn = time.Now()
 		rec.Class = classify(rec.Err)
 		ucancel()
@@ -755,7 +770,7 @@ func (e *Engine) runConcurrent() {
 		default:
 		}
 		e.mu.Lock()
-		if e.stats.Decisions > maxDecisions {
+		if e.stats.Decisions > maxDecisions && int64(e.stats.Decisions) > cfg.Extra["max_decisions"] {
 			e.infra = append(e.infra, "decision cap exceeded")
 			e.mu.Unlock()
 			e.abort(done)
@@ -778,9 +793,13 @@ func (e *Engine) runConcurrent() {
 			p := e.parked[forced]
 			delete(e.parked, forced)
 			e.event++
-			for _, r := range e.hist {
-				if r.Task == p.task && r.Return < 0 && r.Done {
-					r.Return = e.event
+			for i := len(e.hist) - 1; i >= 0; i-- {
+				// a task has at most one operation without a return stamp: its latest
+				if r := e.hist[i]; r.Task == p.task {
+					if r.Return < 0 && r.Done {
+						r.Return = e.event
+					}
+					break
 				}
 			}
 			e.logf("ret %s", p.task)
@@ -857,6 +876,31 @@ func (e *Engine) runConcurrent() {
 				}
 			}
 			k = e.bestByPrio(elig, prio)
+		case "holdat":
+			// the task that reaches the seam named in Notes["hold_key"] stays parked there while anything else can run; until
+			// then that task runs alone (so the run is: it gets to the hold point, everybody else runs to completion, it resumes)
+			hk := cfg.Notes["hold_key"]
+			ht := taskOf(hk)
+			var mine, others []string
+			atHold := false
+			for _, x := range elig {
+				switch {
+				case x == hk:
+					atHold = true
+				case taskOf(x) == ht:
+					mine = append(mine, x)
+				default:
+					others = append(others, x)
+				}
+			}
+			switch {
+			case !atHold && len(mine) > 0:
+				k = mine[0]
+			case len(others) > 0:
+				k = others[int(e.nextTape())%len(others)]
+			default:
+				k = elig[0]
+			}
 		case "hold":
 			held := fmt.Sprintf("c%d", cfg.Hold)
 			var others []string
@@ -1022,16 +1066,45 @@ const hangLimit = 20 * time.Second
 func Execute(t *testing.T, plan *Plan) *RunResult {
 	done := make(chan *RunResult, 1)
 	go func() { done <- executeInBubble(t, plan) }()
+	// the limit is counted in one-second ticks that each really elapsed, not as one long timer: when the whole machine is
+	// paused (a VM snapshot) or the process is not scheduled for a while, one late tick is lost instead of the entire
+	// allowance, so a stall of the sandbox is not mistaken for a hang of the code under test
+	limit := int(hangLimit / time.Second)
+	if v := plan.Cfg.Extra["hang_s"]; v > 0 {
+		limit = int(v) // long-history plans legitimately run for longer
+	}
+	for i := 0; i < limit; i++ {
+		select {
+		case r := <-done:
+			return r
+		case <-time.After(time.Second):
+		}
+	}
 	select {
 	case r := <-done:
 		return r
-	case <-time.After(hangLimit):
-		return &RunResult{Plan: plan, W: NewWorld(plan), Stats: newStats(), Hung: true, Viol: []Violation{{Class: "wedge", Sig: "wedge/hard_hang",
-			Detail: fmt.Sprintf("the execution did not finish within %v of wall-clock time: a task is blocked on something that is neither a storage call nor the (simulated) clock - e.g. a lock that is never released - or spins", hangLimit)}}}
+	default:
 	}
+	return &RunResult{Plan: plan, W: NewWorld(plan), Stats: newStats(), Hung: true, Viol: []Violation{{Class: "wedge", Sig: "wedge/hard_hang",
+		Detail: fmt.Sprintf("the execution did not finish within %v of wall-clock time: a task is blocked on something that is neither a storage call nor the (simulated) clock - e.g. a lock that is never released - or spins", hangLimit)}}}
 }
 
 func executeInBubble(t *testing.T, plan *Plan) (res *RunResult) {
+	for _, o := range plan.Ops {
+		if o.Rep > 1 {
+			q := plan.Clone()
+			q.Ops = nil
+			for _, o := range plan.Ops {
+				n := max(1, o.Rep)
+				o.Rep = 0
+				for i := 0; i < n; i++ {
+					q.Ops = append(q.Ops, o)
+				}
+			}
+			plan = q
+			break
+		}
+	}
 	res = &RunResult{Plan: plan}
 	defer func() {
 		if r := recover(); r != nil {
